@@ -343,14 +343,18 @@ func (r *reinitRun) scenario(outDir string, n, t int, interleave, junk, adapt, b
 		}
 		before := nodeRender(nd)
 		forged, _ := json.Marshal(map[string]interface{}{"ParticipantId": (i + 1) % n, "Error": map[string]string{"ErrorMsg": "forged"}, "CreatedAt": "2023-01-01T00:00:00Z"})
+		oldKeyProposal := []byte(fmt.Sprintf(`{"BatchID":"signed-with-the-replaced-key","ParticipantId":%d,"SigningTasks":[{"MessageID":"m","File":"f","Payload":"AA=="}],"CreatedAt":"2023-01-01T00:00:00Z"}`, (i+1)%n))
 		for k, fm := range []storage.Message{
 			{ID: "f1", DkgRoundID: round, Event: "event_signing_partial_sign_error_received", Data: forged, Signature: bytes.Repeat([]byte{9}, 64), SenderAddr: b.nodes[(i+1)%n].name},
 			{ID: "f2", DkgRoundID: round, Event: "event_signing_partial_sign_error_received", Data: forged, SenderAddr: b.nodes[(i+1)%n].name},
 			{ID: "f3", DkgRoundID: round, Event: "event_signing_start", Data: []byte(`{"BatchID":"x","ParticipantId":0,"SigningTasks":[{"MessageID":"m","File":"f","Payload":"AA=="}],"CreatedAt":"2023-01-01T00:00:00Z"}`), Signature: bytes.Repeat([]byte{1}, 64), SenderAddr: b.nodes[0].name},
+			// signed with the sender's OLD communication key, the one the re-initialisation replaced
+			// (a proposal, which the idle round would accept from that participant if the signature counted)
+			{ID: "f4", DkgRoundID: round, Event: "event_signing_start", Data: oldKeyProposal, Signature: ed25519.Sign(a.nodes[(i+1)%n].kp.Priv, oldKeyProposal), SenderAddr: b.nodes[(i+1)%n].name},
 		} {
 			err := nd.svc.ProcessMessage(fm)
 			if err == nil || nodeRender(nd) != before {
-				r.mon(fmt.Sprintf("C09 unsigned_noop: %s node %d accepts forged message #%d (%s, bad or missing signature) after the re-initialisation", tag, i, k+1, fm.Event))
+				r.mon(fmt.Sprintf("C09 unsigned_noop: %s node %d accepts forged message #%d (%s; #1-#3: bad or missing signature, #4: signed with the sender's replaced key) after the re-initialisation", tag, i, k+1, fm.Event))
 				break
 			}
 		}
